@@ -240,6 +240,15 @@ def fill_points(rng, case):
             cls.append("push%+g" % kmul)
     case["points"] = pts
     case["pt_cls"] = cls
+    # a second shape of the same kind (same array shapes) written INTO the argument arrays of the first
+    # between two calls: histories on the same array objects
+    if rng.random() < 0.6:
+        sh2 = sc.gen_shape(rng, sh["kind"], "random", size_lo=0.2, size_hi=1e2)
+        if sh["kind"] == "mesh":
+            f = rng.choice([0.5, 1.5, 2.0])
+            sh2 = dict(sh2, vs=[[f * x + 0.25 for x in v] for v in sh["vs"]])
+            sh2.pop("triangles", None)
+        case["shape2"] = sh2
     case["dirs"] = [[1.0, 0.0, 0.0], [-1.0, 0.0, 0.0], [0.0, 1.0, 0.0], [0.0, -1.0, 0.0], [0.0, 0.0, 1.0], [0.0, 0.0, -1.0],
                     rand_unit(rng), rand_unit(rng)]
     return case
@@ -249,7 +258,7 @@ def gen_cases(rng, tier):
     per = 8 if tier == "quick" else 90
     cases = []
     for kind in KINDS:
-        for stream, share in (("random", 1.0), ("lattice", 0.6), ("exact", 0.6), ("near", 0.3)):
+        for stream, share in (("random", 1.0), ("lattice", 0.6), ("exact", 0.6), ("near", 0.3), ("degen", 0.6)):
             for _ in range(int(per * share)):
                 cases.append(gen_case(rng, kind, stream))
     rng.shuffle(cases)
@@ -305,6 +314,12 @@ def judge_case(case, r, classes):
     fails = []
     if r.get("args_modified"):
         fails.append(f"{name} modifies its argument(s) number {r['args_modified']} (0 = points, 1.. = shape parameters) in place")
+    ip = r.get("inplace")
+    if isinstance(ip, dict) and ip.get("same") is False:
+        fails.append(f"{name}: after overwriting the argument arrays IN PLACE with another {sh['kind']} (shape2 of the replay) the same "
+                     f"array objects give {ip['got']}, fresh arrays with the same values give {ip['want']} (result depends on object identity / stale state)")
+    if r.get("inplace_exc"):
+        fails.append(f"{name}: in-place edit history raised {r['inplace_exc']}")
     if r.get("second_call_same") is False:
         fails.append(f"{name}: a second call with the very same argument objects returns a different answer")
     for i, (p, c, b) in enumerate(zip(case["points"], classes, r["contained"])):
@@ -486,7 +501,9 @@ def run(tier, seed, replay=None):
                      "(centre, axis points, apex, rim, corners), boundary pushes = boundary point +- k*1e-9*L along the outward "
                      "normal with k in {1.5,4,100,1e4} (10%: k in {0,+-0.3}, inside the band); half of the 'exact' stream cases (axis permutation "
                      "poses, power-of-two sizes) additionally get the exhaustive 7x7x7 lattice k_i in {0,+-1/2,+-1,+-3/2}*extent, on which "
-                     "model and code must agree exactly; distinct_nontrivial counts "
+                     "model and code must agree exactly; stream 'degen' = all sizes equal up to a relative 1e-7..1e-4 (nearly spherical ellipsoids, "
+                     "nearly cubic boxes, ...) with the usual boundary pushes; 60% of the cases carry a call history on the SAME argument arrays "
+                     "(call, overwrite the arrays in place with another shape, call, compare with fresh arrays); distinct_nontrivial counts "
                      "distinct (case hash, point index) pairs that the exact oracle classified 'in' or 'out' (i.e. judged points)")
     R.assumptions += [
         "theorems are about the Gallina model Model/Contain.v instantiated at exact real arithmetic; the tie to /repo is the correspondence check run here (binary64 instance of the same model vs implementation, booleans equal wherever the oracle certifies a 1e-9*L margin, AND - boundary points and absolute thresholds included - wherever every operation is exact in binary64: axis-permutation pose, power-of-two sizes, dyadic points)",
